@@ -19,6 +19,16 @@ Python's reference semantics (see check_aliasing).
 The output depends on the abstract syntax only: comments, docstrings, layout
 and the names of local variables and parameters do not change it.
 
+Normalisation.  Before translation the abstract syntax of every function is
+brought into a normal form by rewrites that preserve Python's meaning (section
+"normal form" below: annotations dropped, f-strings = %-formatting, `x in D` =
+`x in D.keys()`, calls of a pure wrapper / of a nested predicate replaced by
+their bodies, a named temporary for a pure expression replaced by the
+expression, `if not c: A else: B` = `if c: B else: A`, the statements that
+follow an `if` with an early exit moved into its branches, a `continue` at the
+end of a loop body and unreachable statements dropped).  Sources that differ
+only in these respects give the identical ReadGen.v.
+
 Usage: gen_reader.py <out.v>    exit 0 = written (only if content changed)
                                 exit 2 = translation failed (message on stderr)
 """
@@ -120,6 +130,25 @@ def coq_str(s):
     return '[%s]%%N' % '; '.join(str(ord(c)) for c in s) if s else '[]'
 
 
+def fmt_directives(fmt):
+    """the conversions of a %-format string, as a list of 's' / 'd'; None when
+    it has anything else (flags, widths, %(name)s, a lone %); '%%' is text"""
+    out, i = [], 0
+    while i < len(fmt):
+        if fmt[i] == '%':
+            if i + 1 >= len(fmt):
+                return None
+            c = fmt[i + 1]
+            if c in 'sd':
+                out.append(c)
+            elif c != '%':
+                return None
+            i += 2
+        else:
+            i += 1
+    return out
+
+
 def coq_z(i):
     return '(%d)' % i if i < 0 else '%d' % i
 
@@ -139,6 +168,7 @@ def check_module(tree):
     """Everything outside the function bodies that the translation relies on.
     Returns ({name: FunctionDef}, {MODE_X: str}, signatures [(name, (a, b))])."""
     need(isinstance(tree, ast.Module), 'not a module')
+    strip_annotations(tree)
     bound = {}
 
     def bind(name, how):
@@ -169,18 +199,31 @@ def check_module(tree):
             pass                                    # docstring
         else:
             raise TranslationError('unexpected module-level statement at %s: %s' % (where(st), shape(st)))
+    # a name the translation gives a meaning to is either imported from where
+    # it is expected, or not imported and then not mentioned anywhere (an
+    # unused import may be dropped)
+    mentioned = {n.id for n in ast.walk(tree) if isinstance(n, ast.Name)}
     for nm, mod in sorted(IMPORTS.items()):
-        need(bound.get(nm) == ['from %s' % mod], 'module-level binding of %s changed: %s' % (nm, bound.get(nm)))
+        if nm in bound:
+            need(bound[nm] == ['from %s' % mod], 'module-level binding of %s changed: %s' % (nm, bound[nm]))
+        else:
+            need(nm not in mentioned, '%s is used but not imported' % nm)
     need(stars == STAR_IMPORTS, 'star imports changed: %s' % stars)
-    need(sorted(plain) == sorted(PLAIN_IMPORTS), 'plain imports changed: %s' % plain)
+    need(len(set(plain)) == len(plain) and set(plain) <= set(PLAIN_IMPORTS),
+         'plain imports changed: %s' % plain)
+    for nm in PLAIN_IMPORTS:
+        need(nm in plain or nm not in mentioned, '%s is used but not imported' % nm)
     for nm in DATA_CLASSES + BUILTINS:
         need(nm not in bound, '%s is rebound at module level' % nm)
     for nm in FUNCTIONS + ['make_read_peek']:
         need(bound.get(nm) == ['def'], 'function %s: binding %s' % (nm, bound.get(nm)))
     for nm in MODES + ['MATH_SIMPLE_ENVS', 'MATH_TOKEN_TO_ENV', 'ARG_BEGIN_TO_ENV', 'SIGNATURES']:
         need(bound.get(nm) == ['assign'], '%s: binding %s' % (nm, bound.get(nm)))
+    # other defs: only pure wrappers, which are inlined (see wrapper_of)
     extra = sorted(k for k, v in bound.items() if 'def' in v and k not in FUNCTIONS + ['make_read_peek'])
-    need(not extra, 'new function(s) in reader.py: %s' % extra)
+    for nm in extra:
+        need(bound[nm] == ['def'] and nm not in RESERVED and nm not in GLOBAL_TUPLES,
+             'new function %s: binding %s' % (nm, bound[nm]))
     for n in ast.walk(tree):
         need(not isinstance(n, (ast.Global, ast.Nonlocal, ast.Delete, ast.ClassDef, ast.AsyncFunctionDef,
                                 ast.Lambda, ast.Try, ast.With, ast.Await, ast.YieldFrom,
@@ -240,13 +283,24 @@ def check_module(tree):
         need(isinstance(val, ast.Tuple) and len(val.elts) == 2 and all(int_const(e) is not None for e in val.elts),
              'SIGNATURES value for %s' % k.value)
         sigs.append((k.value, (int_const(val.elts[0]), int_const(val.elts[1]))))
+    # other module-level variables: literal constants (a tuple of strings, a
+    # dict from strings to tuples of ints), which are inlined where they are used
     others = sorted(k for k in assigns if k not in MODES + ['MATH_SIMPLE_ENVS', 'MATH_TOKEN_TO_ENV',
                                                              'ARG_BEGIN_TO_ENV', 'SIGNATURES', '__all__'])
-    need(not others, 'new module-level variable(s): %s' % others)
+    consts = {}
+    for k in others:
+        need(bound.get(k) == ['assign'] and k not in RESERVED and k not in GLOBAL_TUPLES,
+             'new module-level variable %s: binding %s' % (k, bound.get(k)))
+        consts[k] = literal_constant(k, assigns[k].value)
+    if '__all__' in assigns:
+        v = assigns['__all__'].value
+        need(isinstance(v, (ast.List, ast.Tuple)) and all(is_const(e, str) for e in v.elts),
+             '__all__ is not a literal list')
     # ---- functions
     fns = {st.name: st for st in tree.body if isinstance(st, ast.FunctionDef)}
     for nm, fn in fns.items():
-        need(not fn.decorator_list and fn.returns is None, '%s: decorator or annotation' % nm)
+        need(not fn.decorator_list, '%s: decorator' % nm)
+    helpers = {nm: wrapper_of(fns[nm]) for nm in extra}
     refp = ast.parse(MAKE_READ_PEEK).body[0]
     need(dump_nodoc(fns['make_read_peek']) == dump_nodoc(refp), 'the make_read_peek wrapper changed')
     # make_read_peek / functools are used nowhere else
@@ -255,7 +309,25 @@ def check_module(tree):
             continue
         for n in ast.walk(fn):
             need(not is_name(n, 'functools'), '%s uses functools' % nm)
-    return fns, modes, sigs
+    return fns, modes, sigs, consts, helpers
+
+
+def literal_constant(name, v):
+    """a module-level literal -> ('tuple', [str]) or ('dict', [(str, (int, ...))])"""
+    if isinstance(v, ast.Tuple) and v.elts and all(is_const(e, str) for e in v.elts):
+        return ('tuple', [e.value for e in v.elts])
+    if isinstance(v, ast.Dict) and v.keys:
+        out, seen = [], set()
+        for k, val in zip(v.keys, v.values):
+            need(k is not None and is_const(k, str) and k.value not in seen,
+                 'module-level dict %s: key %s' % (name, shape(k) if k is not None else '**'))
+            seen.add(k.value)
+            need(isinstance(val, ast.Tuple) and val.elts and all(int_const(e) is not None for e in val.elts),
+                 'module-level dict %s: value for %s' % (name, k.value))
+            out.append((k.value, tuple(int_const(e) for e in val.elts)))
+        return ('dict', out)
+    raise TranslationError('new module-level variable %s is not a literal tuple of strings or a '
+                           'literal dict from strings to tuples of ints: %s' % (name, shape(v)))
 
 
 def int_const(n):
@@ -264,6 +336,496 @@ def int_const(n):
     if isinstance(n, ast.UnaryOp) and isinstance(n.op, ast.USub) and is_const(n.operand, int):
         return -n.operand.value
     return None
+
+
+# ----------------------------------------------------------------- normal form
+#
+# Rewrites of the abstract syntax that do not change what Python computes.
+# Each is justified where it is defined; all are syntactic and fail closed (a
+# shape that does not meet the stated condition is left as it is, or rejected).
+
+SAFE_ANNOTATION_NAMES = {'str', 'int', 'bool', 'float', 'bytes', 'object', 'list', 'tuple', 'dict', 'set',
+                         'frozenset', 'type', 'None', 'Ellipsis'}
+
+
+def check_annotation(a, typing_names, module_names, what):
+    """An annotation is evaluated when the def is executed (its value is only
+    stored in __annotations__): accept expressions whose evaluation cannot fail
+    or have an effect -- names bound by the imports / builtin types, typing
+    constructs subscripted, constants."""
+    if isinstance(a, ast.Constant):
+        return
+    if isinstance(a, ast.Name):
+        need(a.id in typing_names or a.id in module_names or a.id in SAFE_ANNOTATION_NAMES,
+             '%s: annotation uses the unknown name %s' % (what, a.id))
+        return
+    if isinstance(a, ast.Subscript):
+        base = a.value
+        need(isinstance(base, ast.Name) and (base.id in typing_names
+                                             or base.id in ('list', 'tuple', 'dict', 'set', 'frozenset', 'type')),
+             '%s: annotation subscripts %s' % (what, shape(base)))
+        idx = a.slice
+        if isinstance(idx, getattr(ast, 'Index', ())):
+            idx = idx.value
+        check_annotation(idx, typing_names, module_names, what)
+        return
+    if isinstance(a, (ast.Tuple, ast.List)):
+        for e in a.elts:
+            check_annotation(e, typing_names, module_names, what)
+        return
+    raise TranslationError('%s: unsupported annotation %s' % (what, shape(a)))
+
+
+def strip_annotations(tree):
+    """Parameter and return annotations are dropped (after check_annotation).
+    `x: T = e` inside a function is `x = e` (the annotation of a local is not
+    evaluated), `x: T` alone is no statement."""
+    typing_names, module_names = set(), set()
+    for st in tree.body:
+        if isinstance(st, ast.ImportFrom):
+            for a in st.names:
+                if a.name != '*' and a.asname is None:
+                    (typing_names if st.module == 'typing' else module_names).add(a.name)
+    need(not (typing_names & (RESERVED | set(GLOBAL_TUPLES))), 'a typing import shadows a name in use')
+    for fn in ast.walk(tree):
+        if not isinstance(fn, ast.FunctionDef):
+            continue
+        a = fn.args
+        for p in a.args + a.kwonlyargs + getattr(a, 'posonlyargs', []) + [x for x in (a.vararg, a.kwarg) if x]:
+            if p.annotation is not None:
+                check_annotation(p.annotation, typing_names, module_names, fn.name)
+                p.annotation = None
+        if fn.returns is not None:
+            check_annotation(fn.returns, typing_names, module_names, fn.name)
+            fn.returns = None
+
+        class Ann(ast.NodeTransformer):
+            def visit_AnnAssign(self, n):
+                # (a bare `x: T` would make x a local name without binding it)
+                need(isinstance(n.target, ast.Name) and n.simple == 1 and n.value is not None,
+                     '%s: annotated target' % fn.name)
+                return ast.copy_location(ast.Assign(targets=[n.target], value=n.value), n)
+        for i, st in enumerate(list(fn.body)):
+            fn.body[i] = Ann().visit(st)
+        fn.body = [st for st in fn.body if st is not None] or [ast.Pass()]
+    # the names imported from typing are used in annotations only
+    for n in ast.walk(tree):
+        need(not (isinstance(n, ast.Name) and n.id in typing_names),
+             'the typing name %s is used outside an annotation' % getattr(n, 'id', ''))
+
+
+def wrapper_of(fn):
+    """A module-level def other than the reader functions is accepted when it
+    is a pure wrapper:   def h(p1, .., pk[, **kw]): return F(a1, .., an[, **kw])
+    where every argument ai is a parameter (each used exactly once, in the order
+    of the parameter list) or a constant, and F does not mention a parameter.
+    A call h(e1, .., ek, x=.., y=..) is replaced by F(.. ei for pi .., x=.., y=..):
+    the ei and the keyword values are evaluated in the same order as before,
+    F and the constants have no effect."""
+    a = fn.args
+    need(not a.vararg and not a.kwonlyargs and not a.defaults and not a.kw_defaults
+         and not getattr(a, 'posonlyargs', []), '%s: unsupported parameter kinds of a helper' % fn.name)
+    params = [p.arg for p in a.args]
+    kw = a.kwarg.arg if a.kwarg else None
+    for nm in params + ([kw] if kw else []):
+        need(nm not in RESERVED and nm not in GLOBAL_TUPLES, '%s: parameter %s shadows a module-level name' % (fn.name, nm))
+    body = strip_doc(fn.body)
+    need(len(body) == 1 and isinstance(body[0], ast.Return) and isinstance(body[0].value, ast.Call),
+         'new function %s is not a pure wrapper (def h(..): return F(..))' % fn.name)
+    call = body[0].value
+    for n in ast.walk(call.func):
+        need(not (isinstance(n, ast.Name) and n.id in params + [kw]),
+             '%s: the wrapped function depends on a parameter' % fn.name)
+        need(not isinstance(n, (ast.Lambda, ast.Yield, ast.Await)), '%s: unsupported wrapper' % fn.name)
+
+    def trivial(e):
+        return isinstance(e, ast.Constant) or (isinstance(e, ast.Name) and e.id in MODES) \
+            or int_const(e) is not None or (isinstance(e, ast.Tuple) and not e.elts)
+    used = []
+    for e in call.args:
+        need(not isinstance(e, ast.Starred), '%s: star argument in a wrapper' % fn.name)
+        if isinstance(e, ast.Name) and e.id in params:
+            used.append(e.id)
+        else:
+            need(trivial(e), '%s: wrapper argument is neither a parameter nor a constant' % fn.name)
+    seen_kw = False
+    for k in call.keywords:
+        if k.arg is None:
+            need(isinstance(k.value, ast.Name) and k.value.id == kw and not seen_kw,
+                 '%s: unsupported ** argument in a wrapper' % fn.name)
+            seen_kw = True
+        else:
+            need(not seen_kw, '%s: keyword after ** in a wrapper' % fn.name)
+            if isinstance(k.value, ast.Name) and k.value.id in params:
+                used.append(k.value.id)
+            else:
+                need(trivial(k.value), '%s: wrapper argument is neither a parameter nor a constant' % fn.name)
+    need(used == params, '%s: the wrapper does not pass on its parameters once each, in order' % fn.name)
+    need((kw is None) == (not seen_kw), '%s: ** parameter not passed on' % fn.name)
+    return {'params': params, 'kw': kw, 'call': call, 'name': fn.name}
+
+
+def inline_wrappers(fn, helpers):
+    import copy
+    if not helpers:
+        return
+
+    class Inl(ast.NodeTransformer):
+        def visit_Call(self, n):
+            self.generic_visit(n)
+            if isinstance(n.func, ast.Name) and n.func.id in helpers:
+                h = helpers[n.func.id]
+                need(len(n.args) == len(h['params']) and not any(isinstance(a, ast.Starred) for a in n.args),
+                     '%s: call of the helper %s: positional arguments' % (fn.name, h['name']))
+                need(all(k.arg is not None for k in n.keywords) and (h['kw'] is not None or not n.keywords),
+                     '%s: call of the helper %s: keywords' % (fn.name, h['name']))
+                sub = dict(zip(h['params'], n.args))
+                c = copy.deepcopy(h['call'])
+                c.args = [sub[a.id] if isinstance(a, ast.Name) and a.id in sub else a for a in c.args]
+                kws = []
+                for k in c.keywords:
+                    if k.arg is None:
+                        kws.extend(n.keywords)
+                    elif isinstance(k.value, ast.Name) and k.value.id in sub:
+                        kws.append(ast.keyword(arg=k.arg, value=sub[k.value.id]))
+                    else:
+                        kws.append(k)
+                names = [k.arg for k in kws]
+                need(len(set(names)) == len(names), '%s: call of the helper %s: keyword given twice'
+                     % (fn.name, h['name']))
+                c.keywords = kws
+                return ast.copy_location(c, n)
+            return n
+    fn.body = [Inl().visit(st) for st in fn.body]
+    for n in ast.walk(fn):
+        need(not (isinstance(n, ast.Name) and n.id in helpers), '%s: the helper %s is used other than by a call'
+             % (fn.name, getattr(n, 'id', '')))
+
+
+STABLE_ATTRS = ('category', 'position', 'text', 'string', 'name', 'end', 'token_end')
+
+
+def stable_pure(e, buf):
+    """an expression without calls, subscripts or the buffer: constants, names,
+    attribute reads, and/or/not/comparisons/conditional expressions,
+    'fmt' % operands.  Its evaluation has no effect and raises none of the
+    exceptions the model distinguishes."""
+    if isinstance(e, ast.Constant):
+        return True
+    if isinstance(e, ast.Name):
+        return e.id != buf
+    if isinstance(e, ast.Attribute):
+        return e.attr in STABLE_ATTRS and stable_pure(e.value, buf)
+    if isinstance(e, ast.Tuple):
+        return all(stable_pure(x, buf) for x in e.elts)
+    if isinstance(e, ast.BoolOp):
+        return all(stable_pure(x, buf) for x in e.values)
+    if isinstance(e, ast.UnaryOp) and isinstance(e.op, ast.Not):
+        return stable_pure(e.operand, buf)
+    if isinstance(e, ast.IfExp):
+        return all(stable_pure(x, buf) for x in (e.test, e.body, e.orelse))
+    if isinstance(e, ast.Compare):
+        return all(isinstance(o, (ast.Eq, ast.NotEq)) for o in e.ops) \
+            and all(stable_pure(x, buf) for x in [e.left] + e.comparators)
+    if isinstance(e, ast.BinOp) and isinstance(e.op, ast.Mod) and is_const(e.left, str):
+        return stable_pure(e.right, buf)
+    return False
+
+
+def mutates(node, names):
+    """may executing `node` re-bind one of `names` or change the object it
+    holds: a store, `x.append(..)`, or x as a bare argument of a call"""
+    for n in ast.walk(node):
+        if isinstance(n, ast.Name) and n.id in names and not isinstance(n.ctx, ast.Load):
+            return True
+        if isinstance(n, ast.Call):
+            if isinstance(n.func, ast.Attribute) and isinstance(n.func.value, ast.Name) \
+                    and n.func.value.id in names and n.func.attr not in ('startswith', 'strip', 'rstrip', 'get', 'keys'):
+                return True
+            for a in list(n.args) + [k.value for k in n.keywords]:
+                if isinstance(a, ast.Starred):
+                    a = a.value
+                if isinstance(a, ast.Name) and a.id in names:
+                    return True
+        if isinstance(n, ast.FunctionDef) and n.name in names:
+            return True
+    return False
+
+
+def first_evaluated(expr, x):
+    """x occurs in expr, and on the way to its first occurrence (evaluation
+    order = left to right, operands before the operation) nothing is skipped
+    (and/or/conditional expression) and no call has been completed"""
+    state = {'found': False, 'ok': True}
+
+    def walk(e, guarded):
+        if state['found'] or not state['ok']:
+            return
+        if isinstance(e, ast.Name):
+            if e.id == x:
+                state['found'] = True
+                state['ok'] = not guarded
+            return
+        if isinstance(e, ast.BoolOp):
+            walk(e.values[0], guarded)
+            for v in e.values[1:]:
+                walk(v, True)
+            return
+        if isinstance(e, ast.IfExp):
+            walk(e.test, guarded)
+            walk(e.body, True)
+            walk(e.orelse, True)
+            return
+        if isinstance(e, (ast.Lambda, ast.ListComp, ast.SetComp, ast.DictComp, ast.GeneratorExp)):
+            state['ok'] = state['ok'] and not any(isinstance(n, ast.Name) and n.id == x for n in ast.walk(e))
+            return
+        for c in ast.iter_child_nodes(e):
+            walk(c, guarded)
+            if state['found'] or not state['ok']:
+                return
+        if isinstance(e, ast.Call):
+            state['ok'] = False       # a call completed before x was reached
+    walk(expr, False)
+    return state['found'] and state['ok']
+
+
+def head_expr(st):
+    """the expression a statement evaluates first, unconditionally"""
+    if isinstance(st, (ast.Assign, ast.AugAssign, ast.Return)) and st.value is not None:
+        return st.value
+    if isinstance(st, ast.Expr):
+        return st.value
+    if isinstance(st, (ast.If, ast.While, ast.Assert)):
+        return st.test
+    return None
+
+
+def inline_temps(fn, buf):
+    """Named temporaries.  A statement `x = E` at the top level of the function
+    is removed and x replaced by E when
+      * x is bound nowhere else and is not a parameter, every use comes later;
+      * E is stable_pure (no effect, none of the modelled exceptions);
+      * from the definition to the statement with the last use, nothing can
+        re-bind a name of E or change the object it holds (mutates), so E has
+        the same value at every use;
+      * the first use is in the first statement after the definition (nested
+        defs aside), evaluated unconditionally and before any call completes:
+        if E fails (AttributeError: outside the model either way) it fails
+        before anything observable happened, as it did at the definition.
+    Uses inside a nested predicate `def g(s): return s.startswith(P)` count as
+    uses at the calls of g and of forward_until(g, ..)."""
+    import copy
+    changed = True
+    while changed:
+        changed = False
+        body = fn.body
+        params = {p.arg for p in fn.args.args}
+        for p, st in enumerate(body):
+            if not (isinstance(st, ast.Assign) and len(st.targets) == 1 and isinstance(st.targets[0], ast.Name)):
+                continue
+            x, E = st.targets[0].id, st.value
+            if x in params or x == buf or not stable_pure(E, buf):
+                continue
+            stores = [n for n in ast.walk(fn) if isinstance(n, ast.Name) and n.id == x
+                      and not isinstance(n.ctx, ast.Load)]
+            if len(stores) != 1 or any(isinstance(n, ast.FunctionDef) and n.name == x for n in ast.walk(fn)):
+                continue
+            fv = {n.id for n in ast.walk(E) if isinstance(n, ast.Name)}
+            if x in fv:
+                continue
+            # nested predicates that mention x: their names stand for x
+            preds = set()
+            for d in body:
+                if isinstance(d, ast.FunctionDef) and any(isinstance(n, ast.Name) and n.id == x for n in ast.walk(d)):
+                    preds.add(d.name)
+                    if {a.arg for a in d.args.args} & (fv | {x}):
+                        preds = None
+                        break
+            if preds is None:
+                continue
+            stands = {x} | preds
+
+            def uses(node):
+                return any(isinstance(n, ast.Name) and n.id in stands and isinstance(n.ctx, ast.Load)
+                           for n in ast.walk(node))
+            if any(uses(b) for b in body[:p] if not isinstance(b, ast.FunctionDef)) \
+                    or any(isinstance(b, ast.FunctionDef) and b.name in preds for b in body[:p]):
+                continue
+            later = [b for b in body[p + 1:] if not isinstance(b, ast.FunctionDef)]
+            using = [i for i, b in enumerate(later) if uses(b)]
+            if not using or using[0] != 0:
+                continue
+            h = head_expr(later[0])
+            name_first = None
+            if h is not None:
+                for cand in sorted(stands):
+                    if first_evaluated(h, cand):
+                        # the earliest among the names standing for x must come first
+                        name_first = cand
+                        break
+            if name_first is None:
+                continue
+            last = using[-1]
+            region = later[:last]
+            tail = later[last]
+            inner = [c for f in ('body', 'orelse') for c in getattr(tail, f, [])]
+            if isinstance(tail, ast.If) and not any(uses(c) for c in inner):
+                region_nodes = region + [tail.test]
+            else:
+                region_nodes = region + [tail]
+            if any(mutates(r, fv | {x}) for r in region_nodes):
+                continue
+
+            class Sub(ast.NodeTransformer):
+                def visit_Name(self, n):
+                    if n.id == x and isinstance(n.ctx, ast.Load):
+                        return ast.copy_location(copy.deepcopy(E), n)
+                    return n
+            fn.body = body[:p] + [Sub().visit(b) for b in body[p + 1:]]
+            changed = True
+            break
+
+
+TERMINATORS = (ast.Return, ast.Raise, ast.Break, ast.Continue)
+
+
+def may_exit(stmts):
+    """some path through stmts leaves by return/raise/break/continue"""
+    for s in stmts:
+        if isinstance(s, TERMINATORS):
+            return True
+        if isinstance(s, ast.If) and (may_exit(s.body) or may_exit(s.orelse)):
+            return True
+        if isinstance(s, (ast.While, ast.For)):
+            for n in ast.walk(s):
+                if isinstance(n, (ast.Return, ast.Raise)):
+                    return True
+    return False
+
+
+def count_stmts(stmts):
+    n = 0
+    for s in stmts:
+        n += 1
+        for f in ('body', 'orelse'):
+            if not isinstance(s, ast.FunctionDef):
+                n += count_stmts(getattr(s, f, []))
+    return n
+
+
+# `a != b` is `not a == b` for the values the model compares (ReadDSL.bin_op:
+# ONe is the negation of OEq, ONotIn of OIn), `is not` of `is`
+NEGATED = {ast.NotEq: ast.Eq, ast.NotIn: ast.In, ast.IsNot: ast.Is}
+
+
+def merge_tails(s):
+    """`if c: A; S else: B; S`  =  `if c: A else: B` followed by S, for the
+    longest common suffix S such that neither A nor B can leave early (then
+    both branches reach S, and S runs in the same state either way)."""
+    a, b = s.body, s.orelse
+    k = 0
+    while k < len(a) and k < len(b) and ast.dump(a[len(a) - 1 - k]) == ast.dump(b[len(b) - 1 - k]):
+        k += 1
+    while k > 0 and (may_exit(a[:len(a) - k]) or may_exit(b[:len(b) - k])):
+        k -= 1
+    if k == 0:
+        return [s]
+    tail = a[len(a) - k:]
+    s.body, s.orelse = a[:len(a) - k], b[:len(b) - k]
+    if not s.body and not s.orelse:
+        # `if c: pass else: pass`: the test is still evaluated
+        return [ast.copy_location(ast.Expr(value=s.test), s)] + tail
+    return [s] + tail
+
+
+def nf_block(stmts, loop_tail, budget):
+    """Control-flow normal form of a statement list.
+      * `if not c: A else: B`  =  `if c: B else: A`   (`not c` is bool(c) negated)
+      * `if c: A else: B` followed by R, where A or B can leave early (return,
+        raise, break, continue):  `if c: A; R else: B; R`  -- the same statements
+        are executed on every path; R after an exit is unreachable and dropped
+      * `if a != b: A else: B`  =  `if a == b: B else: A`, likewise `not in`, `is not`
+      * a common suffix of both branches that both reach is moved behind the `if`
+      * statements after return/raise/break/continue are dropped (unreachable)
+      * `continue` as the last statement of a loop body is dropped
+    loop_tail: the end of this list is the end of a loop body."""
+    import copy
+    out = []
+    for i, s in enumerate(stmts):
+        rest = stmts[i + 1:]
+        if isinstance(s, ast.If):
+            test, a, b = s.test, list(s.body), list(s.orelse)
+            while True:
+                if isinstance(test, ast.UnaryOp) and isinstance(test.op, ast.Not):
+                    test, a, b = test.operand, b, a
+                elif isinstance(test, ast.Compare) and len(test.ops) == 1 and type(test.ops[0]) in NEGATED:
+                    test = ast.copy_location(ast.Compare(left=test.left, ops=[NEGATED[type(test.ops[0])]()],
+                                                         comparators=test.comparators), test)
+                    a, b = b, a
+                else:
+                    break
+            a = [x for x in a if not isinstance(x, ast.Pass)]
+            b = [x for x in b if not isinstance(x, ast.Pass)]
+            if rest and (may_exit(a) or may_exit(b)):
+                budget[0] -= count_stmts(rest)
+                need(budget[0] > 0, 'normal form: too much code duplication')
+                na = nf_block(a + copy.deepcopy(rest), loop_tail, budget)
+                nb = nf_block(b + copy.deepcopy(rest), loop_tail, budget)
+                out.extend(merge_tails(ast.copy_location(ast.If(test=test, body=na, orelse=nb), s)))
+                return out
+            last = not rest
+            na = nf_block(a, loop_tail and last, budget)
+            nb = nf_block(b, loop_tail and last, budget)
+            out.extend(merge_tails(ast.copy_location(ast.If(test=test, body=na, orelse=nb), s)))
+        elif isinstance(s, ast.While):
+            need(not s.orelse, 'while-else')
+            out.append(ast.copy_location(ast.While(test=s.test, body=nf_block(list(s.body), True, budget),
+                                                   orelse=[]), s))
+        elif isinstance(s, ast.For):
+            need(not s.orelse, 'for-else')
+            out.append(ast.copy_location(ast.For(target=s.target, iter=s.iter,
+                                                 body=nf_block(list(s.body), True, budget), orelse=[]), s))
+        elif isinstance(s, ast.Continue) and loop_tail:
+            return out
+        elif isinstance(s, TERMINATORS):
+            out.append(s)
+            return out
+        elif isinstance(s, ast.Pass):
+            continue
+        else:
+            out.append(s)
+    return out
+
+
+def normalise(fn, helpers):
+    """the normal form of one reader function (a new FunctionDef)"""
+    import copy
+    fn = copy.deepcopy(fn)
+    fn.body = strip_doc(fn.body)
+    need(fn.body, '%s: empty body' % fn.name)
+    need(fn.args.args, '%s: no buffer parameter' % fn.name)
+    inline_wrappers(fn, helpers)
+    for n in ast.walk(fn):
+        need(not (isinstance(n, ast.Name) and n.id in helpers), '%s: the helper %s is re-bound or passed on'
+             % (fn.name, getattr(n, 'id', '')))
+        need(not (isinstance(n, ast.arg) and n.arg in helpers), '%s: a parameter shadows the helper %s'
+             % (fn.name, getattr(n, 'arg', '')))
+    inline_temps(fn, fn.args.args[0].arg)
+
+    def scope(f):
+        """what makes a name local / the function a generator: independent of reachability"""
+        return (sorted({n.id for n in ast.walk(f) if isinstance(n, ast.Name) and not isinstance(n.ctx, ast.Load)}
+                       | {n.name for n in ast.walk(f) if isinstance(n, ast.FunctionDef) and n is not f}),
+                any(isinstance(n, (ast.Yield, ast.YieldFrom)) for n in ast.walk(f)))
+    before = scope(fn)
+    budget = [4 * count_stmts(fn.body) + 40]
+    fn.body = nf_block(fn.body, False, budget)
+    need(fn.body, '%s: empty body' % fn.name)
+    # dropping unreachable statements must not change which names are local or
+    # whether the function is a generator
+    need(scope(fn) == before, '%s: unreachable code binds a name or yields' % fn.name)
+    ast.fix_missing_locations(fn)
+    return fn
 
 
 # ------------------------------------------------------------------ signatures
@@ -288,6 +850,10 @@ class Sig(object):
         self.defaults = [None] * (len(self.params) - nd)
         for d in a.defaults:
             self.defaults.append(const_value(d, modes, '%s: default' % fn.name))
+        # the defaults as DSL expressions (evaluated once, when the def is
+        # executed: constants and the immutable tuples imported from tokens.py)
+        self.default_exps = [None if d is None else (d if d.startswith('XGlobal') else 'XConst (%s)' % d)
+                             for d in self.defaults]
 
 
 def const_value(n, modes, what):
@@ -301,18 +867,21 @@ def const_value(n, modes, what):
         return 'VTuple []'
     if is_name(n) and n.id in modes:
         return 'VStr gen_%s' % n.id
+    if is_name(n) and n.id in GLOBAL_TUPLES:
+        return 'XGlobal %s' % GLOBAL_TUPLES[n.id]
     raise TranslationError('%s is not a supported constant: %s' % (what, shape(n)))
 
 
 # ------------------------------------------------------------------- functions
 
 class Fun(object):
-    def __init__(self, fn, sigs, modes):
+    def __init__(self, fn, sigs, modes, consts):
         self.fn = fn
         self.name = fn.name
         self.sigs = sigs
         self.sig = sigs[fn.name]
         self.modes = modes
+        self.consts = consts     # module-level literal constants, inlined
         self.buf = self.sig.buf
         self.locals = list(self.sig.params)
         self.closures = {}       # name -> ast of E in `def name(s): return s.startswith(E)`
@@ -322,7 +891,7 @@ class Fun(object):
         need(self.body, '%s: empty body' % self.name)
         self.collect(self.body)
         for nm in self.locals + [self.buf] + list(self.closures):
-            need(nm not in RESERVED and nm not in GLOBAL_TUPLES,
+            need(nm not in RESERVED and nm not in GLOBAL_TUPLES and nm not in consts,
                  '%s: local name %s shadows a module-level name' % (self.name, nm))
         need(self.buf not in self.assigned, '%s: the buffer parameter is re-bound' % self.name)
 
@@ -397,6 +966,13 @@ class Fun(object):
     def is_buf(self, n):
         return is_name(n, self.buf)
 
+    def lit_dict(self, n):
+        """the Coq term (list (str * value)) of a module-level literal dict, else None"""
+        if is_name(n) and n.id in self.consts and n.id not in self.locals and self.consts[n.id][0] == 'dict':
+            return '[%s]' % '; '.join('(%s, VTuple [%s])' % (coq_str(k), '; '.join('VInt %s' % coq_z(i) for i in v))
+                                      for k, v in self.consts[n.id][1])
+        return None
+
     # ---- buffer methods
     def buf_call(self, n):
         """src.<meth>(...) -> (meth, Call) else None"""
@@ -466,7 +1042,7 @@ class Fun(object):
                 out.append(self.ex(given[i]))
             else:
                 need(sig.defaults[i] is not None, '%s: %s: parameter %s missing' % (self.name, what, p))
-                out.append('XConst (%s)' % sig.defaults[i])
+                out.append(sig.default_exps[i])
         self.calls.append((n, callee, given))
         return out
 
@@ -512,6 +1088,8 @@ class Fun(object):
                 return 'XConst (VStr gen_%s)' % n.id
             if n.id in GLOBAL_TUPLES:
                 return 'XGlobal %s' % GLOBAL_TUPLES[n.id]
+            if n.id in self.consts and self.consts[n.id][0] == 'tuple':
+                return 'XConst (VTuple [%s])' % '; '.join('VStr %s' % coq_str(x) for x in self.consts[n.id][1])
             self.err(n, 'unsupported name')
         if isinstance(n, ast.Tuple):
             return 'XTuple (xl [%s])' % '; '.join(self.ex(e) for e in n.elts)
@@ -535,6 +1113,9 @@ class Fun(object):
             if is_name(n.value) and n.value.id in GLOBAL_DICTS:
                 need(not isinstance(idx, ast.Slice), '%s: slice of a dict' % self.name)
                 return 'XDictIndex %s (%s)' % (GLOBAL_DICTS[n.value.id], self.ex(idx))
+            if self.lit_dict(n.value) is not None:
+                need(not isinstance(idx, ast.Slice), '%s: slice of a dict' % self.name)
+                return 'XLitIndex %s (%s)' % (self.lit_dict(n.value), self.ex(idx))
             if isinstance(idx, ast.Slice):
                 if idx.upper is None and idx.step is None and idx.lower is not None:
                     return 'XSliceFrom (%s) %d' % (self.ex(n.value), self.nat(idx.lower, 'slice start'))
@@ -544,10 +1125,22 @@ class Fun(object):
             if len(n.ops) != 1 or len(n.comparators) != 1:
                 self.err(n, 'chained comparison')
             op, lhs, rhs = type(n.ops[0]), n.left, n.comparators[0]
-            if op is ast.In and isinstance(rhs, ast.Call) and isinstance(rhs.func, ast.Attribute) \
-                    and rhs.func.attr == 'keys' and is_name(rhs.func.value) \
-                    and rhs.func.value.id in GLOBAL_DICTS and not rhs.args and not rhs.keywords:
-                return 'XInKeys (%s) %s' % (self.ex(lhs), GLOBAL_DICTS[rhs.func.value.id])
+            # `x in D.keys()` and `x in D` are the same test
+            if op in (ast.In, ast.NotIn) and isinstance(rhs, ast.Call) and isinstance(rhs.func, ast.Attribute) \
+                    and rhs.func.attr == 'keys' and not rhs.args and not rhs.keywords \
+                    and (is_name(rhs.func.value) and rhs.func.value.id in GLOBAL_DICTS
+                         or self.lit_dict(rhs.func.value) is not None):
+                rhs = rhs.func.value
+            if op in (ast.In, ast.NotIn) and (is_name(rhs) and rhs.id in GLOBAL_DICTS
+                                              or self.lit_dict(rhs) is not None):
+                if is_name(rhs) and rhs.id in GLOBAL_DICTS:
+                    t = 'XInKeys (%s) %s' % (self.ex(lhs), GLOBAL_DICTS[rhs.id])
+                else:
+                    t = 'XLitIn (%s) %s' % (self.ex(lhs), self.lit_dict(rhs))
+                return t if op is ast.In else 'XNot (%s)' % t
+            if op in (ast.Is, ast.IsNot) and isinstance(rhs, ast.Constant) and rhs.value is None:
+                t = 'XIsNone (%s)' % self.ex(lhs)
+                return t if op is ast.Is else 'XNot (%s)' % t
             ops = {ast.Eq: 'OEq', ast.NotEq: 'ONe', ast.Lt: 'OLt', ast.Gt: 'OGt', ast.LtE: 'OLe',
                    ast.GtE: 'OGe', ast.In: 'OIn', ast.NotIn: 'ONotIn'}
             if op not in ops:
@@ -574,13 +1167,38 @@ class Fun(object):
             if isinstance(n.op, ast.Mod) and is_const(n.left, str):
                 fmt = n.left.value
                 if isinstance(n.right, ast.Tuple):
-                    # a formatted exception message: only its operands matter
-                    return 'XOpaque (xl [%s])' % '; '.join(self.ex(e) for e in n.right.elts)
+                    ops = '; '.join(self.ex(e) for e in n.right.elts)
+                    d = fmt_directives(fmt)
+                    if d is not None and len(d) == len(n.right.elts):
+                        # a formatted exception message: only its operands matter
+                        return 'XOpaque (xl [%s])' % ops
+                    # the number of conversions is not the number of operands
+                    return 'XFormatDyn (%s) (xl [%s])' % (self.ex(n.left), ops)
                 need(fmt.count('%') == 1 and fmt.count('%s') == 1,
                      '%s, %s: unsupported format string %r' % (self.name, where(n), fmt))
                 pre, post = fmt.split('%s')
                 return 'XFormat %s (%s) %s' % (coq_str(pre), self.ex(n.right), coq_str(post))
+            if isinstance(n.op, ast.Mod) and isinstance(n.right, ast.Tuple):
+                # a format string that is computed: the interpreter counts its conversions
+                return 'XFormatDyn (%s) (xl [%s])' % (self.ex(n.left), '; '.join(self.ex(e) for e in n.right.elts))
             self.err(n, 'unsupported binary operator')
+        if isinstance(n, ast.JoinedStr):
+            # f'..{a}..{b}..' is '..%s..%s..' % (a, b): format(x, '') is str(x)
+            # for the values that occur (str, Token, int, list)
+            parts, vals = [''], []
+            for v in n.values:
+                if isinstance(v, ast.Constant) and type(v.value) is str:
+                    parts[-1] += v.value
+                elif isinstance(v, ast.FormattedValue) and v.conversion in (-1, 115) and v.format_spec is None:
+                    vals.append(v.value)
+                    parts.append('')
+                else:
+                    self.err(n, 'unsupported f-string part')
+            if not vals:
+                return 'XConst (VStr %s)' % coq_str(parts[0])
+            if len(vals) == 1:
+                return 'XFormat %s (%s) %s' % (coq_str(parts[0]), self.ex(vals[0]), coq_str(parts[1]))
+            return 'XOpaque (xl [%s])' % '; '.join(self.ex(e) for e in vals)
         if isinstance(n, ast.Call):
             return self.call(n)
         self.err(n, 'unsupported expression')
@@ -589,6 +1207,25 @@ class Fun(object):
         f = n.func
         if self.buf_call(n) is not None:
             return self.buffer_method(n)
+        if is_name(f) and f.id in self.closures:
+            # g(src) for the nested predicate `def g(s): return s.startswith(P)`
+            need(len(n.args) == 1 and not n.keywords and self.is_buf(n.args[0]),
+                 '%s, %s: call of the nested predicate on something else than the buffer' % (self.name, where(n)))
+            return 'XStartsWith (%s)' % self.ex(self.closures[f.id])
+        if is_name(f, 'tuple'):
+            need(len(n.args) == 1 and not n.keywords and not isinstance(n.args[0], ast.Starred),
+                 '%s, %s: unsupported tuple(...)' % (self.name, where(n)))
+            return 'XToTuple (%s)' % self.ex(n.args[0])
+        if isinstance(f, ast.Attribute) and not self.is_buf(f.value) and not is_name(f.value, 'TC') \
+                and not (is_name(f.value) and (f.value.id in GLOBAL_DICTS or f.value.id in self.consts)):
+            if f.attr == 'strip' and not n.args and not n.keywords:
+                return 'XStrip (%s)' % self.ex(f.value)
+            if f.attr == 'rstrip' and len(n.args) == 1 and not n.keywords and is_const(n.args[0], str) \
+                    and n.args[0].value:
+                return 'XRStrip (%s) %s' % (self.ex(f.value), coq_str(n.args[0].value))
+            if f.attr == 'startswith' and len(n.args) == 1 and not n.keywords \
+                    and not isinstance(n.args[0], ast.Starred):
+                return 'XStrStartsWith (%s) (%s)' % (self.ex(f.value), self.ex(n.args[0]))
         if is_name(f, 'next'):
             need(len(n.args) == 1 and not n.keywords and self.is_buf(n.args[0]),
                  '%s, %s: next() of something else than the buffer' % (self.name, where(n)))
@@ -626,9 +1263,14 @@ class Fun(object):
                  '%s, %s: unsupported make_read_peek(...)' % (self.name, where(n)))
             g = f.args[0].id
             return 'XCallPeek F_%s (xl [%s])' % (g, '; '.join(self.resolve(n, g, 'peek call of %s' % g)))
-        if isinstance(f, ast.Attribute) and f.attr == 'get' and is_name(f.value) and f.value.id in GLOBAL_DICTS:
-            need(len(n.args) == 2 and not n.keywords, '%s, %s: unsupported .get' % (self.name, where(n)))
-            return 'XDictGet %s (%s) (%s)' % (GLOBAL_DICTS[f.value.id], self.ex(n.args[0]), self.ex(n.args[1]))
+        if isinstance(f, ast.Attribute) and f.attr == 'get' and (is_name(f.value) and f.value.id in GLOBAL_DICTS
+                                                                 or self.lit_dict(f.value) is not None):
+            need(len(n.args) in (1, 2) and not n.keywords and not any(isinstance(a, ast.Starred) for a in n.args),
+                 '%s, %s: unsupported .get' % (self.name, where(n)))
+            dflt = self.ex(n.args[1]) if len(n.args) == 2 else 'XConst VNone'
+            if self.lit_dict(f.value) is not None:
+                return 'XLitGet %s (%s) (%s)' % (self.lit_dict(f.value), self.ex(n.args[0]), dflt)
+            return 'XDictGet %s (%s) (%s)' % (GLOBAL_DICTS[f.value.id], self.ex(n.args[0]), dflt)
         # a call of a value: a class object (position= keyword) or a CharToLineOffset
         if self.is_local(f) or (isinstance(f, ast.Subscript) and is_name(f.value)
                                 and f.value.id in GLOBAL_DICTS):
@@ -760,6 +1402,10 @@ def occurrence(n, par, fu):
             and par[p].right is p:
         return 'read'
     if isinstance(p, ast.BinOp) and isinstance(p.op, ast.Mod) and p.right is n and is_const(p.left, str):
+        return 'read'
+    if isinstance(p, ast.FormattedValue):
+        return 'read'
+    if isinstance(p, ast.Compare) and all(isinstance(o, (ast.Is, ast.IsNot)) for o in p.ops):
         return 'read'
     if isinstance(p, ast.Call):
         for (c, callee, given) in fu.calls:
@@ -904,11 +1550,12 @@ def generate():
     path = os.path.join(REPO, 'TexSoup', 'reader.py')
     with open(path) as f:
         tree = ast.parse(f.read())
-    fns, modes, sigtab = check_module(tree)
+    fns, modes, sigtab, consts, helpers = check_module(tree)
+    fns = {nm: normalise(fns[nm], helpers) for nm in FUNCTIONS}
     sigs = {nm: Sig(fns[nm], modes) for nm in FUNCTIONS}
     funs = {}
     for nm in FUNCTIONS:
-        funs[nm] = Fun(fns[nm], sigs, modes)
+        funs[nm] = Fun(fns[nm], sigs, modes, consts)
         funs[nm].translate()
     need(funs['read_tex'].is_gen and not any(funs[nm].is_gen for nm in FUNCTIONS if nm != 'read_tex'),
          'the set of generator functions changed')
@@ -917,7 +1564,10 @@ def generate():
     w = out.append
     w('(* GENERATED by harness/gen_reader.py from TexSoup/reader.py -- do not edit.')
     w('   One term of ReadDSL.fundef per function, constructor by constructor from')
-    w('   the Python abstract syntax; see ReadDSL.v for the meaning.  Locals are')
+    w('   the Python abstract syntax, after the meaning-preserving normal form')
+    w('   described in gen_reader.py (early exits moved into the branches of the')
+    w('   if, `not c` / `!=` tests turned round, pure wrappers and named')
+    w('   temporaries inlined); see ReadDSL.v for the meaning.  Locals are')
     w('   numbered: parameters (without the buffer) first, then in order of first')
     w('   binding. *)')
     w('From Coq Require Import List NArith ZArith.')
